@@ -66,11 +66,15 @@ func All(verif, prop string) []Variant {
 			continue
 		}
 		var m struct {
-			Property string `json:"property"`
-			Summary  string `json:"summary"`
+			Property   string `json:"property"`
+			Summary    string `json:"summary"`
+			Superseded string `json:"superseded"`
 		}
 		if json.Unmarshal(b, &m) != nil || m.Property != prop {
 			continue
+		}
+		if m.Superseded != "" {
+			continue // the code the change was made in was rewritten by a later repair; see meta.json
 		}
 		out = append(out, Variant{Name: "seeded/" + filepath.Base(d), Prop: prop, Breaks: true, Patch: filepath.Join(d, "patch.diff"), Why: "seeded change confirmed to break the property (sub-agent + independent confirmation)"})
 	}
